@@ -1,20 +1,12 @@
-import MayVerif.Proof.Runtime.Park.Tac
+import MayVerif.Proof.Runtime.Park.StepK0
+import MayVerif.Proof.Runtime.Park.StepK1
 namespace MayVerif.Park
 
-set_option maxHeartbeats 1000000 in
 theorem inv_stepK (s s' : St) (h : Inv s) (hs : stepK s = some s') : Inv s' := by
-  have hppc : s.kpc = .k4r → s.ppc = .u3wait := fun hk => h.u3 (Or.inr (Or.inr (Or.inl (h.heldK.mpr hk))))
-  have hnd : s.kpc ≠ .kidle → s.dropped = false := by
-    intro hk; cases hd : s.dropped
-    · rfl
-    · exact absurd (h.dr3 (Or.inl hd)) hk
-  destruct_inv
-  unfold stepK ktouch at hs
-  dsimp only [] at hs
-  cases hk : s.kpc <;> simp only [hk, reduceCtorEq] at hs
-  all_goals (try (have hd0 := hnd (by simp [hk])))
-  all_goals (try (have hp3 := hppc hk))
-  all_goals (try (split at hs)) <;> simp only [Option.some.injEq] at hs <;> subst hs
-  all_goals (constructor <;> (try simp only [sched]) <;> (try simp only [resume, hp3]) <;> (try dsimp only []) <;> grind)
+  have h2 : kgrp s.kpc = 0 ∨ kgrp s.kpc = 1 := by
+    cases s.kpc <;> simp [kgrp]
+  rcases h2 with h0 | h1
+  · exact inv_stepK0 s s' h h0 hs
+  · exact inv_stepK1 s s' h h1 hs
 
 end MayVerif.Park
